@@ -247,6 +247,15 @@ let judge0 op args got =
       else expect ("ok " ^ hx (Zar.erem (Zar.mul (a 1) (a 2)) (a 0))) got
   | "modsqr" -> if Zar.sign (a 0) = 0 then expect ~nt:false "panic DivideBy0" got
       else expect ("ok " ^ hx (Zar.erem (Zar.mul (a 1) (a 1)) (a 0))) got
+  | "hist" ->
+      (* a history with state: after every clone_from the destination holds the source (also as an FBig significand and an RBig
+         numerator), at the end its text, its JSON round trip and a canonical layout *)
+      let vs = List.map z (List.tl args) in
+      let last = List.nth vs (List.length vs - 1) in
+      let cls v = let nb = Zar.numbits v in (if Zar.sign v < 0 then "n" else "p") ^ (if nb = 0 then "0" else if nb <= 64 then "a" else if nb <= 128 then "b" else "c") in
+      let steps = String.concat "" (List.map (fun v -> " " ^ hx v ^ " 1") vs) in
+      expect ~extra:("cls=hist-" ^ String.concat "" (List.map cls (List.map z args)))
+        (Printf.sprintf "ok%s %s %s 1" steps (tok_of_bytes (dec_text last)) (hx last)) got
   | "cdivrem" -> if Zar.sign (a 1) = 0 then expect ~nt:false "panic DivideBy0" got
       else
         let (q, r) = cv_divrem (a 0) (a 1) in
